@@ -418,7 +418,7 @@ var operandStoppers = map[string]bool{
 // unsupportedOperands are keywords that start valid expressions outside the subset.
 var unsupportedOperands = map[string]bool{
 	"CASE": true, "EXISTS": true, "ARRAY": true, "ROW": true, "CAST": true, "NOT": true,
-	"ANY": true, "ALL": true, "SOME": true, "SELECT": true, "VALUES": true, "WITH": true,
+	"ANY": true, "ALL": true, "SOME": true, "SELECT": true, "VALUES": true, "WITH": true, "TABLE": true,
 	"INTERVAL": true, "CURRENT_DATE": true, "CURRENT_TIME": true, "CURRENT_TIMESTAMP": true,
 	"CURRENT_USER": true, "LOCALTIME": true, "LOCALTIMESTAMP": true, "SESSION_USER": true,
 	"DEFAULT": true, "DISTINCT": true, "VARIADIC": true, "EXTRACT": true, "POSITION": true, "SUBSTRING": true,
